@@ -346,6 +346,7 @@ pub fn build(cfg: &Cfg) -> Result<Live, String> {
                         in_maint: false,
                         in_call: false,
                         busy: false,
+                        pub_calls: 0,
                         out: Vec::new(),
                         cache: c.clone(),
                     })
@@ -547,6 +548,9 @@ struct Inj {
     /// reserved (injection during scripted map steps is not safe: see `pins`)
     in_call: bool,
     busy: bool,
+    /// whole public calls injected during the current maintenance run (bounded: a call made
+    /// inside a run cannot start housekeeping itself, so the write channel must keep room)
+    pub_calls: u32,
     out: Vec<String>,
     cache: SCache<VKey, VVal, VBuildHasher>,
 }
@@ -570,7 +574,14 @@ fn injected_step() {
                 let t = 10 + x.rng.below(6);
                 let k = x.rng.below(x.nkeys);
                 let v = x.rng.below(12);
-                let kind = x.rng.below(4);
+                let mut kind = x.rng.below(8);
+                if kind >= 4 {
+                    if x.pub_calls >= 12 || !phase::AVAILABLE {
+                        kind -= 4;
+                    } else {
+                        x.pub_calls += 1;
+                    }
+                }
                 Some((x.cache.clone(), t, k, v, kind, x.in_call))
             }
             _ => None,
@@ -578,7 +589,30 @@ fn injected_step() {
     });
     if let Some((c, t, k, v, kind, whole)) = act {
         let mut lines = Vec::new();
-        if !holds(t) {
+        if kind >= 4 {
+            // a whole call of the public API by another logical thread, executed while the
+            // scripted thread is inside its maintenance run: its map step, a housekeeping attempt
+            // that finds the run in progress and returns, and the send of its operation. This goes
+            // through the glue of `insert` / `invalidate` / `get` that the phase-split hooks bypass.
+            let key = VKey::new(k);
+            match kind {
+                4 => {
+                    c.invalidate(&key);
+                    lines.push(format!("inv {} -> ok", k));
+                }
+                6 => {
+                    let r = c.get(&key);
+                    lines.push(match r {
+                        Some(v) => format!("get {} -> some {}", k, v.0),
+                        None => format!("get {} -> none", k),
+                    });
+                }
+                _ => {
+                    c.insert(key, VVal::new(v));
+                    lines.push(format!("ins {} {} -> ok", k, v));
+                }
+            }
+        } else if !holds(t) {
             if kind == 0 {
                 let key = VKey::new(k);
                 match phase::invalidate_map(&c, &key) {
@@ -637,7 +671,18 @@ fn set_in_call(on: bool) {
 fn set_in_maint(on: bool) {
     INJ.with(|i| {
         if let Some(x) = i.borrow_mut().as_mut() {
+            if on {
+                x.pub_calls = 0;
+            }
             x.in_maint = on;
+        }
+    });
+}
+
+fn no_public_calls() {
+    INJ.with(|i| {
+        if let Some(x) = i.borrow_mut().as_mut() {
+            x.pub_calls = u32::MAX;
         }
     });
 }
@@ -801,6 +846,10 @@ fn exec_sync<S: std::hash::BuildHasher + Clone + Send + Sync + 'static>(c: &SCac
         }
         Some("sync") if ws.len() == 1 => {
             set_in_maint(true);
+            // an explicit `sync()` does not take the housekeeper's flag: a whole public call made
+            // inside it would start a housekeeping run of its own and wait for the deques mutex
+            // this (same OS) thread holds. Only the hook-based map steps are injected here.
+            no_public_calls();
             c.sync();
             set_in_maint(false);
             return "ok".into();
@@ -840,6 +889,24 @@ fn exec_sync<S: std::hash::BuildHasher + Clone + Send + Sync + 'static>(c: &SCac
             }
             None => "bad-op".into(),
         },
+        Some("iterover") if ws.len() >= 2 && matches!(ws[1], "ins" | "inv" | "invall" | "sync" | "adv") => {
+            // the iterator is created, another operation runs, then the iterator is consumed: what
+            // it yields must be resident, live and not invalidated at the time it is yielded
+            // (creating the iterator takes no lock: DashMap locks a shard at the first `next`)
+            let it = c.iter();
+            let inner = ws[1..].join(" ");
+            let r = exec_sync(c, clock, &inner);
+            if r != "ok" {
+                drop(it);
+                return "bad-op".into();
+            }
+            let mut v: Vec<(u64, u64)> = it.map(|e| (e.key().0, e.value().0)).collect();
+            v.sort();
+            format!(
+                "iter {}",
+                v.iter().map(|(k, v)| format!("{}:{}", k, v)).collect::<Vec<_>>().join(",")
+            )
+        }
         Some("iterlag") if ws.len() == 2 => match ws[1].parse::<u128>() {
             Ok(d) => {
                 let it = c.iter();
